@@ -48,6 +48,7 @@ Proof.
     + auto.
     + intros Hx. apply in_app_or in Hx. destruct Hx as [Hx|Hx]; auto.
       apply in_app_or in Hx. destruct Hx; auto.
+  - (* EFor *) apply IHe1.
   - (* ESwitch *) apply IHe.
   - (* ETry *) apply IHe1.
   - (* EThrow *) apply IHe.
